@@ -104,7 +104,7 @@ def run_case(case, acc):
         acc.evals += max(after - before, 1)
 
 
-def _run_case(case, acc, aut=None):
+def _run_case(case, acc, aut=None, report=None):
     from omega.symbolic import fixpoint as fx
     if 'mode_seq' in case:
         # all four modes one after the other in ONE automaton
@@ -114,11 +114,12 @@ def _run_case(case, acc, aut=None):
             c = dict(case, moore=moore, plus_one=plus_one)
             c.pop('mode_seq')
             c['reused_automaton'] = True
-            _run_case(c, acc, aut)
+            _run_case(c, acc, aut, report=case)
         return
     if aut is None:
         aut = fam.build_game(case)
     aut.build()
+    rcase = case if report is None else report
     gm = fam.GameModel(aut, case)
     E, S = aut.action['env'], aut.action['sys']
     states = gm.states
@@ -153,7 +154,7 @@ def _run_case(case, acc, aut=None):
         if 0 < len(ref) < n:
             nontrivial = True
         if got != ref:
-            acc.violation('step_mismatch', case, detail=dict(
+            acc.violation('step_mismatch', rcase, detail=dict(
                 vars=gm.svars, target=sorted(fs), got=sorted(got),
                 ref=sorted(ref)))
             break
@@ -203,7 +204,7 @@ def _run_case(case, acc, aut=None):
         else:
             ref = lfp_iter(lambda X: X | fs | CP(X))
         if got != ref:
-            acc.violation('attractor_not_least_fixpoint', case, detail=dict(
+            acc.violation('attractor_not_least_fixpoint', rcase, detail=dict(
                 vars=gm.svars, target=sorted(fs), got=sorted(got),
                 ref=sorted(ref)))
             break
@@ -215,7 +216,7 @@ def _run_case(case, acc, aut=None):
         else:
             ref = None
         if ref is not None and got != ref:
-            acc.violation('trap_not_greatest_fixpoint', case, detail=dict(
+            acc.violation('trap_not_greatest_fixpoint', rcase, detail=dict(
                 vars=gm.svars, safe=sorted(fs), got=sorted(got),
                 ref=sorted(ref)))
             break
@@ -236,7 +237,7 @@ def _run_case(case, acc, aut=None):
             kt = lfp_kt(lambda X: (tg | CP(X)) & ins)
             ok = (got == kt)
         if not ok:
-            acc.violation('attractor_inside_mismatch', case, detail=dict(
+            acc.violation('attractor_inside_mismatch', rcase, detail=dict(
                 vars=gm.svars, target=sorted(tg), inside=sorted(ins),
                 got=sorted(got), ref=sorted(q)))
             bad = True
@@ -250,7 +251,7 @@ def _run_case(case, acc, aut=None):
             continue
         ref = gfp_kt(lambda X: (sf & CP(X)) | un)
         if got != ref:
-            acc.violation('trap_unless_not_greatest_fixpoint', case,
+            acc.violation('trap_unless_not_greatest_fixpoint', rcase,
                           detail=dict(vars=gm.svars, safe=sorted(sf),
                                       unless=sorted(un), got=sorted(got),
                                       ref=sorted(ref)))
@@ -272,7 +273,7 @@ def _run_case(case, acc, aut=None):
         got = T(fx.ee_image(B(fs), aut))
         acc.count('image_calls')
         if got != image(fs):
-            acc.violation('image_mismatch', case, detail=dict(
+            acc.violation('image_mismatch', rcase, detail=dict(
                 vars=gm.svars, source=sorted(fs), got=sorted(got),
                 ref=sorted(image(fs))))
             break
@@ -297,7 +298,7 @@ def _run_case(case, acc, aut=None):
             if not got <= up:
                 probs.append('contains_unreachable')
             if probs:
-                acc.violation('descendants_' + probs[0], case, detail=dict(
+                acc.violation('descendants_' + probs[0], rcase, detail=dict(
                     vars=gm.svars, source=sorted(src), constrain=sorted(con),
                     future=future, got=sorted(got), low=sorted(low),
                     up=sorted(up), problems=probs))
